@@ -8,6 +8,8 @@ from ..rules import Must, call_matcher
 ID = "C07"
 ANCHORS = 'deep_lift_shap._register_hooks,deep_lift_shap._clear_hooks,predict.predict'.split(",")
 MIN_INSTANCES = 20
+# rule families whose findings in this module are derived by an engine (not by comparing spellings): exempt from the rewrite gate
+SEMANTIC_RULES = {"R-RELEASE", "R-MODEL", "R-NOGRAD", "R-EVAL"}
 EXPLANATION = (
     "R-RELEASE (typestate): in deep_lift_shap the hook resource acquired by model.apply(<registrar>) must be released "
     "by model.apply(<clearer>) on every exit; every may-raise statement executed while the hooks are installed must be "
